@@ -40,10 +40,9 @@ theorem segTrace_logInv (hJ : LogInv S J) {me : Nat} {st : ExecState P σ} {p : 
   induction h with
   | fuel st p => exact h0
   | ret st => exact h0
-  | retPanicking st msg _ => exact h0
-  | abort st msg _ => exact h0
-  | unwind st msg e _ _ ih => exact ih h0 hne
-  | unwindAlso st msg e _ _ ih => exact ih h0 hne
+  | retPanicking st msg => exact h0
+  | abort st msg => exact h0
+  | unwind st msg pk apk e _ ih => exact ih h0 hne
   | halt o kont st e hh =>
     cases hh with
     | switch _ _ => exact h0
@@ -104,5 +103,65 @@ theorem execute_logInv (hJ : LogInv S J) (P : Program) (ms : MaxSteps) (seed : N
   rw [execute_eq] at hne ⊢
   exact runLoop_logInv hJ segFuel fuel (initState P ms seed s) (LoopInv.init P ms seed s)
     (by simpa [initState] using h0) hne
+
+/-! ### schedulers that never cause a scheduler panic -/
+
+/-- `next_task` always answers (with `None` or one of the tasks it was shown) when shown a non-empty list, and
+`next_u64` never panics -/
+structure WellBehaved (S : Scheduler σ) : Prop where
+  task : ∀ s views cur y, views ≠ [] → ∃ ch s1, S.nextTask s views cur y = (.choose ch, s1) ∧
+    ∀ t, ch = some t → t ∈ views.map (·.id)
+  draw : ∀ s, ∃ v s1, S.nextU64 s = (.ok v, s1)
+
+theorem segTrace_not_schedPanic (hW : WellBehaved S) {me : Nat} {st : ExecState P σ} {p : Prog P.U Unit}
+    {e : SegEnd P σ} (h : SegTrace S me st p e) : ∀ msg st', e ≠ .schedPanic msg st' := by
+  induction h with
+  | fuel st p => intro _ _ h; cases h
+  | ret st => intro _ _ h; cases h
+  | retPanicking st msg => intro _ _ h; cases h
+  | abort st msg => intro _ _ h; cases h
+  | unwind st msg pk apk e _ ih => exact ih
+  | halt o kont st e hh =>
+    cases hh with
+    | switch _ _ => intro _ _ h; cases h
+    | panicked _ _ _ msg => intro _ _ h; cases h
+    | randFail _ _ err s' hn =>
+      obtain ⟨v, s1, hv⟩ := hW.draw st.sch
+      rw [hv] at hn; cases hn
+  | step o kont st st' b e hs _ ih => exact ih
+
+/-- a well-behaved scheduler never makes an execution end with a scheduler panic -/
+theorem execute_not_schedPanic (hW : WellBehaved S) (P : Program) (ms : MaxSteps) (seed : Nat) (s : σ)
+    (fuel segFuel : Nat) : ∀ msg, (execute P S ms seed s fuel segFuel).outcome ≠ .schedPanic msg := by
+  obtain ⟨stf, _, _, hf⟩ := execute_final P S ms seed s fuel segFuel
+  have hviews : ∀ (k : Kernel), Consults k → (atConsult k).views k.offered ≠ [] := by
+    intro k hc hnil
+    have := views_ids k
+    rw [hnil] at this
+    exact offered_ne_nil_of_anyRunnable hc.anyRunnable this.symm
+  generalize execute P S ms seed s fuel segFuel = r at hf
+  intro msg hr
+  cases hf with
+  | loopFuel => cases hr
+  | boundFail n h1 h2 => cases hr
+  | boundStop n h1 h2 => cases hr
+  | deadlock h1 h2 h3 => cases hr
+  | ok h1 h2 h3 => cases hr
+  | schedPanic m s' hc hask =>
+    obtain ⟨ch, s1, h1, _⟩ := hW.task stf.sch _ stf.k.current.id stf.k.hasYielded (hviews _ hc)
+    unfold ask at hask
+    rw [h1] at hask; cases hask
+  | choseBad t m s' hc hask hmem =>
+    obtain ⟨ch, s1, h1, h2⟩ := hW.task stf.sch _ stf.k.current.id stf.k.hasYielded (hviews _ hc)
+    unfold ask at hask
+    rw [h1] at hask
+    simp only [Prod.mk.injEq, SchedAns.choose.injEq] at hask
+    have := h2 t hask.1
+    rw [views_ids] at this
+    exact hmem this
+  | choseNone s' h1 h2 => cases hr
+  | seg t s' p r' h1 h2 h3 h4 h5 =>
+    obtain ⟨_, _, h6⟩ := finishSeg_inl h5
+    exact h6 (segTrace_not_schedPanic hW (runSegment_trace S t segFuel (segStart stf t s') p)) msg hr
 
 end ShuttleProofs.Replay
